@@ -72,30 +72,63 @@ type vfE8Script struct {
 
 // ---------------------------------------------------------------- shared helpers
 
+// vfE8DecodeStrict reads a gzip output file to its end (audit C29: the old decoder silently stopped at the first
+// thing it could not read). Returns the payload of the complete members and
+//   "ok"      – the file is a sequence of complete members and nothing else (an empty file included);
+//   "torn"    – the file ends inside a member (header, deflate stream or trailer cut short): the state a kill or an
+//               os.Exit leaves behind for the member that was open; its bytes are in no one's payload;
+//   "corrupt" – bytes that are no gzip member where one has to start (garbage after the last member, bad magic),
+//               a bad checksum or a broken deflate stream.
+func vfE8DecodeStrict(raw []byte) ([]byte, string) {
+	var out []byte
+	bb := bufio.NewReader(bytes.NewReader(raw))
+	for {
+		if _, err := bb.Peek(1); err != nil {
+			return out, "ok"
+		}
+		zr, err := gzip.NewReader(bb)
+		if err == nil {
+			zr.Multistream(false)
+			var member []byte
+			member, err = io.ReadAll(zr)
+			if err == nil {
+				out = append(out, member...)
+				continue
+			}
+		}
+		if err == io.ErrUnexpectedEOF || err == io.EOF {
+			return out, "torn"
+		}
+		return out, "corrupt"
+	}
+}
+
 // vfE8Decode returns what a reader can decode from the file: plain → the bytes; gzip → the payload
-// of the complete members (a truncated / still open trailing member contributes nothing).
+// of the complete members (a torn trailing member contributes nothing; see vfE8DecodeStrict for the status).
 func vfE8Decode(raw []byte, gz bool) []byte {
 	if !gz {
 		return raw
 	}
-	var out []byte
-	br := bytes.NewReader(raw)
-	bb := bufio.NewReader(br)
-	for {
-		if _, err := bb.Peek(1); err != nil {
-			return out
-		}
-		zr, err := gzip.NewReader(bb)
-		if err != nil {
-			return out
-		}
-		zr.Multistream(false)
-		member, err := io.ReadAll(zr)
-		if err != nil {
-			return out // incomplete member
-		}
-		out = append(out, member...)
+	out, _ := vfE8DecodeStrict(raw)
+	return out
+}
+
+// vfE8GzStatus: relative name → status of vfE8DecodeStrict for every file under root/w and root/o.
+func vfE8GzStatus(root string) map[string]string {
+	res := map[string]string{}
+	for _, d := range []string{"w", "o"} {
+		filepath.Walk(filepath.Join(root, d), func(p string, fi os.FileInfo, err error) error {
+			if err != nil || fi.IsDir() {
+				return nil
+			}
+			if raw, err := os.ReadFile(p); err == nil {
+				rel, _ := filepath.Rel(root, p)
+				_, res[rel] = vfE8DecodeStrict(raw)
+			}
+			return nil
+		})
 	}
+	return res
 }
 
 // vfE8Tree lists root/w and root/o: relative name → decoded content.
@@ -522,6 +555,19 @@ func TestVerifToFileChild(t *testing.T) {
 		}
 	}
 	state := func() string {
+		if sc.GZIP {
+			// strict decodability at every event boundary (audit C29): nothing is ever corrupt, and only the file the
+			// router has open may end in an unfinished member
+			open := ""
+			if f.out != nil {
+				open, _ = filepath.Rel(root, f.out.Name())
+			}
+			for name, st := range vfE8GzStatus(root) {
+				if st == "corrupt" || (st == "torn" && name != open) {
+					fmt.Fprintf(res, "GZBAD %s %s\n", name, st)
+				}
+			}
+		}
 		return fmt.Sprintf("st=%s fin=[%s] files=%s", status(), rec.takeFins(), vfE8TreeLine(vfE8Tree(root, sc.GZIP), false))
 	}
 	tick := func() {
@@ -889,6 +935,8 @@ func vfE8RunCase(dir string, idx int, sc vfE8Script, strace bool) vfE8Result {
 			}
 		case strings.HasPrefix(l, "STARVE "):
 			out.hist["starve:"+strings.Replace(l[7:], " ", ":", -1)]++
+		case strings.HasPrefix(l, "GZBAD "):
+			out.oracle = append(out.oracle, "gzip output file is not decompressible while the tool runs: "+l[6:])
 		case strings.HasPrefix(l, "FAULTSKIP "):
 			out.hist["fault:skipped:"+l[10:]]++
 		case strings.HasPrefix(l, "OP "):
@@ -939,6 +987,25 @@ func vfE8RunCase(dir string, idx int, sc vfE8Script, strace bool) vfE8Result {
 		out.impl = append(out.impl, fmt.Sprintf("st=%s tree=%s", st, vfE8TreeLine(tree, true)))
 	} else if !ended && out.exit != "0" {
 		out.oracle = append(out.oracle, "child ended abnormally: exit "+out.exit)
+	}
+	// gzip: after the stop every file decodes to its end; only a process that died (kill / os.Exit / panic) or was
+	// stopped without shutdown may leave ONE file ending in an unfinished member, and that member holds no finished
+	// record (the presence oracle below only looks at complete members)
+	if sc.GZIP {
+		torn := 0
+		for name, st := range vfE8GzStatus(root) {
+			out.hist["gz-file:"+st]++
+			if st == "corrupt" {
+				out.oracle = append(out.oracle, "gzip output file "+name+" is corrupt after the stop (garbage or broken member)")
+			}
+			if st == "torn" {
+				torn++
+			}
+		}
+		cleanStop := len(out.impl) > 0 && strings.HasPrefix(out.impl[len(out.impl)-1], "st=done")
+		if torn > 1 || (torn > 0 && cleanStop) {
+			out.oracle = append(out.oracle, fmt.Sprintf("%d gzip output file(s) end in an unfinished member after the stop (clean stop: %v)", torn, cleanStop))
+		}
 	}
 	// end-state oracle: every finished message's record is in the final tree (after the stop)
 	msgs := map[string][]byte{}
